@@ -37,8 +37,21 @@ def parseSel (s : String) : Option ASel :=
   | 'F' :: rest => (String.ofList rest).toNat?.map .field
   | _ => none
 
-def parseSelO (s : String) : Option (Option ASel) :=
-  if s == "-" then some none else (parseSel s).map some
+/-- selector path: `-` (empty) or `sel.sel…` -/
+def parsePath (s : String) : Option (List ASel) :=
+  if s == "-" || s == "" || s == "@" then some [] else (s.splitOn ".").mapM parseSel
+
+/-- payload parts of a MakeInterface: `-` or `path=opnd,path=opnd` -/
+def parsePay (parseOpnd : String → Option Opnd) (s : String) : Option (List (List ASel × Opnd)) :=
+  if s == "-" then some [] else
+  (s.splitOn ",").mapM fun it =>
+    match it.splitOn "=" with
+    | [p, x] => do some (← parsePath p, ← parseOpnd x)
+    | _ => none
+
+/-- receiver parts of a method: `-` (none) or `path;path` with `@` for the empty path -/
+def parsePaths (s : String) : Option (List (List ASel)) :=
+  if s == "-" then some [] else (s.splitOn ";").mapM parsePath
 
 def parseSite (s : String) : Option Site :=
   match s.toList with
@@ -77,12 +90,12 @@ def parseInstr (ws : List String) : Option Instr :=
   | ["alloc", r, n] => do some (.alloc (← r.toNat?) (← n.toNat?))
   | ["copy", r, x] => do some (.copy (← r.toNat?) (← parseOpnd x))
   | ["addr", r, x, s] => do some (.addr (← r.toNat?) (← parseOpnd x) (← parseSel s))
-  | ["load", r, x, s] => do some (.load (← r.toNat?) (← parseOpnd x) (← parseSelO s))
-  | ["store", x, s, v] => do some (.store (← parseOpnd x) (← parseSelO s) (← parseOpnd v))
+  | ["load", r, x, s] => do some (.load (← r.toNat?) (← parseOpnd x) (← parsePath s))
+  | ["store", x, s, v] => do some (.store (← parseOpnd x) (← parsePath s) (← parseOpnd v))
   | ["hcopy", x, sx, y, sy, only] => do
-      some (.hcopy (← parseOpnd x) (← parseSel sx) (← parseOpnd y) (← parseSel sy) (← parseSiteO only))
-  | ["mkiface", r, n, t, x] => do some (.mkiface (← r.toNat?) (← n.toNat?) (← t.toNat?) (← parseOpnd x))
-  | ["tassert", r, x, t] => do some (.tassert (← r.toNat?) (← parseOpnd x) (← t.toNat?))
+      some (.hcopy (← parseOpnd x) (← parsePath sx) (← parseOpnd y) (← parsePath sy) (← parseSiteO only))
+  | ["mkiface", r, n, t, pay] => do some (.mkiface (← r.toNat?) (← n.toNat?) (← t.toNat?) (← parsePay parseOpnd pay))
+  | ["tassert", r, x, t, π] => do some (.tassert (← r.toNat?) (← parseOpnd x) (← t.toNat?) (← parsePath π))
   | ["tfilter", r, x, ts] => do some (.tfilter (← r.toNat?) (← parseOpnd x) (← parseList String.toNat? ts))
   | ["mkclosure", r, g, bs] => do some (.mkclosure (← r.toNat?) (← g.toNat?) (← parseList parseOpnd bs))
   | ["call", c, callee, args, dsts, sp] => do
@@ -93,7 +106,7 @@ def parseInstr (ws : List String) : Option Instr :=
 
 structure Facts where
   funcs : Array Func := #[]
-  methods : List (Nat × Nat × Nat) := []
+  methods : List (Nat × Nat × Nat × List (List ASel)) := []
   roots : List Nat := []
   pt : Std.HashMap (Nat × Nat) (List Label) := {}
   cg : Std.HashSet (Nat × Nat × Nat) := {}
@@ -128,10 +141,10 @@ def parseLine (F : Facts) (line : String) : Facts :=
     match f.toNat?, parseInstr rest with
     | some f, some i => addInstr F f i
     | _, _ => badline
-  | ["method", t, m, g] =>
-    match t.toNat?, m.toNat?, g.toNat? with
-    | some t, some m, some g => { F with methods := (t, m, g) :: F.methods }
-    | _, _, _ => badline
+  | ["method", t, m, g, ps] =>
+    match t.toNat?, m.toNat?, g.toNat?, parsePaths ps with
+    | some t, some m, some g, some ps => { F with methods := (t, m, g, ps) :: F.methods }
+    | _, _, _, _ => badline
   | ["root", g] =>
     match g.toNat? with
     | some g => { F with roots := F.roots ++ [g] }
@@ -167,56 +180,129 @@ partial def readAll (h : IO.FS.Stream) (F : Facts) : IO Facts := do
   if line.isEmpty then return F
   readAll h (parseLine F line)
 
-/-! the derived heap table: least table closed under the store / mkiface / hcopy rules (computed here,
-    CHECKED by `ptrClosed`, so this computation is not trusted) -/
+/-! the derived tables: heap cells, and the points-to sets of VIRTUAL registers (register numbers
+    `≥ vbase`: the pointer-like leaves of struct-valued SSA registers, which the public API cannot
+    query).  Both are computed here as the least tables closed under the rules and then CHECKED by
+    `ptrClosed`, so this computation is not trusted. -/
+
+def vbase : Nat := 2000000
 
 abbrev HeapTbl := Std.HashMap Label (List Label)
+abbrev VregTbl := Std.HashMap (Nat × Nat) (List Label)
 
-def HeapTbl.addAll (T : HeapTbl) (c : Label) (ls : List Label) : HeapTbl × Bool :=
-  let cur := (T.get? c).getD []
-  let new := ls.filter fun l => !cur.contains l
-  if new.isEmpty then (T, false) else (T.insert c (cur ++ new.eraseDups), true)
+structure Derived where
+  heap : HeapTbl := {}
+  vreg : VregTbl := {}
+  changed : Bool := false
 
-def ptOpF (F : Facts) (f : Nat) (x : Opnd) : List Label :=
+def addNew (cur ls : List Label) : Option (List Label) :=
+  let new := (ls.filter fun l => !cur.contains l).eraseDups
+  if new.isEmpty then none else some (cur ++ new)
+
+def Derived.addHeap (D : Derived) (c : Label) (ls : List Label) : Derived :=
+  match addNew ((D.heap.get? c).getD []) ls with
+  | none => D
+  | some l => { D with heap := D.heap.insert c l, changed := true }
+
+/-- only virtual registers are derived; the others come from the real result -/
+def Derived.addReg (D : Derived) (f r : Nat) (ls : List Label) : Derived :=
+  if r < vbase then D else
+  match addNew ((D.vreg.get? (f, r)).getD []) ls with
+  | none => D
+  | some l => { D with vreg := D.vreg.insert (f, r) l, changed := true }
+
+def ptReg (F : Facts) (D : Derived) (f r : Nat) : Option (List Label) :=
+  if r < vbase then F.pt.get? (f, r) else some ((D.vreg.get? (f, r)).getD [])
+
+def ptOpF (F : Facts) (D : Derived) (f : Nat) (x : Opnd) : List Label :=
   match x with
-  | .reg r => (F.pt.get? (f, r)).getD []
+  | .reg r => (ptReg F D f r).getD []
   | .glob g => [(Site.glob g, [])]
   | .fn g => [(Site.fn g, [])]
   | .const => []
 
-def heapPass (F : Facts) (P : Prog) (T : HeapTbl) : HeapTbl × Bool := Id.run do
-  let mut T := T
-  let mut changed := false
+def heapOf (D : Derived) (c : Label) : List Label := (D.heap.get? c).getD []
+
+def bindPass (_F : Facts) (D : Derived) (g : Nat) (params : List Nat) (actuals : List (List Label)) : Derived := Id.run do
+  let mut D := D
+  for (p, a) in params.zip actuals do
+    D := D.addReg g p a
+  return D
+
+def onePass (F : Facts) (P : Prog) (callees : Std.HashMap (Nat × Nat) (List Nat)) (D0 : Derived) : Derived := Id.run do
+  let mut D := { D0 with changed := false }
   for f in [0:P.funcs.size] do
     if F.reach.contains f then
       for i in P.code f do
         match i with
-        | .store x s v =>
-          for l in ptOpF F f x do
-            let (T', c) := T.addAll (extO l s) (ptOpF F f v)
-            T := T'; changed := changed || c
-        | .mkiface _ n t y =>
-          let (T', c) := T.addAll (Site.iface n t, [ASel.pay]) (ptOpF F f y)
-          T := T'; changed := changed || c
+        | .alloc r n => D := D.addReg f r [(Site.alloc n, [])]
+        | .copy r x => D := D.addReg f r (ptOpF F D f x)
+        | .addr r x s => D := D.addReg f r ((ptOpF F D f x).map fun l => ext l s)
+        | .load r x π =>
+          for l in ptOpF F D f x do
+            D := D.addReg f r (heapOf D (extP l π))
+        | .store x π v =>
+          for l in ptOpF F D f x do
+            D := D.addHeap (extP l π) (ptOpF F D f v)
         | .hcopy x sx y sy only =>
-          for lx in ptOpF F f x do
+          for lx in ptOpF F D f x do
             if (match only with | none => true | some st => lx.1 == st) then
-              for ly in ptOpF F f y do
-                let (T', c) := T.addAll (ext lx sx) ((T.get? (ext ly sy)).getD [])
-                T := T'; changed := changed || c
-        | _ => pure ()
-  return (T, changed)
+              for ly in ptOpF F D f y do
+                D := D.addHeap (extP lx sx) (heapOf D (extP ly sy))
+        | .mkiface r n t pay =>
+          D := D.addReg f r [(Site.iface n t, [])]
+          for (π, y) in pay do
+            D := D.addHeap (Site.iface n t, ASel.pay :: π) (ptOpF F D f y)
+        | .tassert r x t π =>
+          for l in ptOpF F D f x do
+            match l with
+            | (Site.iface n t', []) => if t' == t then D := D.addReg f r (heapOf D (Site.iface n t', ASel.pay :: π))
+            | _ => pure ()
+        | .tfilter r x ts =>
+          D := D.addReg f r ((ptOpF F D f x).filter fun l =>
+            match l with
+            | (Site.iface _ t', []) => ts.contains t'
+            | _ => false)
+        | .mkclosure r g bs =>
+          D := D.addReg f r [(Site.fn g, [])]
+          D := bindPass F D g (P.fvs g) (bs.map (ptOpF F D f))
+        | .call c callee args dsts spawn =>
+          for g in (callees.get? (f, c)).getD [] do
+            match callee with
+            | .invoke x m =>
+              for l in ptOpF F D f x do
+                match l with
+                | (Site.iface n t, []) =>
+                  match P.method t m with
+                  | some gp =>
+                    if gp.1 == g then
+                      D := bindPass F D g (P.params g)
+                        ((gp.2.map fun π => heapOf D (Site.iface n t, ASel.pay :: π)) ++ args.map (ptOpF F D f))
+                  | none => pure ()
+                | _ => pure ()
+            | _ => D := bindPass F D g (P.params g) (args.map (ptOpF F D f))
+            if !spawn then
+              for j in P.code g do
+                match j with
+                | .ret vs =>
+                  for (d, v) in dsts.zip vs do
+                    D := D.addReg f d (ptOpF F D g v)
+                | _ => pure ()
+        | .ret _ => pure ()
+  return D
 
-partial def heapFix (F : Facts) (P : Prog) (T : HeapTbl) (fuel : Nat) : HeapTbl :=
-  if fuel == 0 then T else
-  let (T', c) := heapPass F P T
-  if c then heapFix F P T' (fuel - 1) else T'
+partial def fixpoint (F : Facts) (P : Prog) (callees : Std.HashMap (Nat × Nat) (List Nat)) (D : Derived) (fuel : Nat) : Derived :=
+  if fuel == 0 then D else
+  let D' := onePass F P callees D
+  if D'.changed then fixpoint F P callees D' (fuel - 1) else D'
 
 def Facts.res (F : Facts) (P : Prog) : Res :=
-  let T := heapFix F P {} 1000
-  { pt := fun f r => F.pt.get? (f, r),
+  let callees : Std.HashMap (Nat × Nat) (List Nat) :=
+    F.cgList.foldl (fun m e => m.insert (e.1, e.2.1) (e.2.2 :: (m.get? (e.1, e.2.1)).getD [])) {}
+  let D := fixpoint F P callees {} 10000
+  { pt := fun f r => ptReg F D f r,
     cg := fun f c g => F.cg.contains (f, c, g),
     reach := fun f => F.reach.contains f,
-    heap := fun l => (T.get? l).getD [] }
+    heap := fun l => heapOf D l }
 
 end PtrFacts
